@@ -77,8 +77,12 @@ func VerifC14_DataPathConverges() {
 	// the closed log object, so nothing written afterwards reaches a replica (a replica joining then is refused).
 	usedTx, usedFlush := false, false
 	join := func() {
+		// what the StreamWAL handler does for a new stream: the replica asks for everything after what it has
+		session.StartSequence = rep.GetLastAppliedSequence() + 1
 		p.registerReplicaSession(session)
-		vsym.Assert(p.sendInitialEntries(session) == nil, "sendInitialEntries failed")
+		if session.StartSequence > 0 {
+			vsym.Assert(p.sendInitialEntries(session) == nil, "sendInitialEntries failed")
+		}
 	}
 	for i := 0; i < n; i++ {
 		if i == joinAt {
